@@ -107,7 +107,7 @@ class Env:
     BUILTINS = {
         "object": object, "int": int, "bool": bool, "str": str, "float": float,
         "list": list, "tuple": tuple, "dict": dict, "NoneType": type(None),
-        "set": set, "bytes": bytes, "type": type,
+        "set": set, "bytes": bytes, "type": type, "ABCMeta": abc.ABCMeta,
     }
 
     def __init__(self, hier=(), predlog=None):
